@@ -492,7 +492,8 @@ def _check_dask(ddf, dactive, op, sig, probes, st, light=False):
         arr = whole[dactive].array
         tb = models.tight_total_bounds(models.kind_of(arr), models.array_values(arr))
         if not any(np.isnan(tb)):
-            exp = sorted(int(d) for d in arr.hilbert_distance(total_bounds=list(tb), p=6))
+            exp = sorted(models.hilbert_reference(models.kind_of(arr), models.array_values(arr),
+                                                  tb, 6))
             if sorted(int(v) for v in packed.index.tolist()) != exp:
                 raise Bad(f"dask-use-hilbert@{op}", f"{op}: pack_partitions does not use the "
                           f"active column {dactive!r}")
